@@ -143,9 +143,13 @@ class Impl:
         return None
 
     def _lex(self, chunks):
-        """cut the new bytes of the stream into lines; -> (frames, tail-description)"""
-        frames = []
-        for data in chunks:
+        """cut the new bytes of the stream into lines; chunks = [(data, transport paused at
+        that write call)] -> (frames, tail-description, calls).  calls: per write call
+        (paused, does a byte that begins a new frame lie in this call, length)"""
+        frames, calls = [], []
+        for data, paused in chunks:
+            begins = (not self.tail and len(data) > 0) or data.find(b'\n', 0, len(data) - 1) >= 0
+            calls.append((bool(paused), bool(begins), len(data)))
             buf = self.tail + data if self.tail else data
             while True:
                 i = buf.find(b'\n')
@@ -160,7 +164,7 @@ class Impl:
             t = self.tail
             tail = (len(t), sorted(m for m, f in self.frames.items() if f.startswith(t)),
                     t[:32].decode('latin1'))
-        return frames, tail
+        return frames, tail, calls
 
     def act(self, ev):
         self.obs = []
@@ -201,7 +205,7 @@ class Impl:
             if kind == 'write':
                 m = self._whole(rec[2])
                 out.append(f'w{m}:{int(rec[3])}' if m is not None else f'wp{len(rec[2])}:{int(rec[3])}')
-                chunks.append(rec[2])
+                chunks.append((rec[2], rec[3]))
             elif kind == 'write-after-close':
                 m = self._whole(rec[2])
                 out.append(f'wac{m}' if m is not None else f'wacp{len(rec[2])}')
@@ -213,7 +217,7 @@ class Impl:
                 out.append(f'ab@{int(rec[0])}')
             elif kind == 'connection_lost':
                 out.append('lost')
-        frames, tail = self._lex(chunks)
+        frames, tail, calls = self._lex(chunks)
         return {
             'obs': tuple(sorted(out + self.obs)),
             'writes': [o for o in out if o.startswith('w') and not o.startswith('wac')],
@@ -221,9 +225,9 @@ class Impl:
             'nb': sum(1 for t in self.tasks.values() if not t.done()),
             't': int(self.loop.time()),
             'paused': self.tr.paused_writing,
-            'frames': frames, 'tail': tail,
+            'frames': frames, 'tail': tail, 'calls': calls,
             'inflight': sorted(m for m, t in self.tasks.items() if not t.done()),
-            'bytes': sum(len(c) for c in chunks),
+            'bytes': sum(len(c) for c, _p in chunks),
         }
 
     def close(self):
@@ -308,11 +312,7 @@ def oracle(events, recs):
             if o.startswith('wac'):
                 pass
             elif o.startswith('w'):
-                # one transport.write() call (a whole frame `w<id>` or some other bytes `wp<n>`)
-                if o.endswith(':1'):
-                    bad.append(('c15:write-while-paused',
-                                f'step {idx} {ev}: {o} - bytes were handed to the transport while '
-                                f'it reported its send buffer full'))
+                pass        # one transport.write() call: judged below, at stream level
             elif o.startswith('ok') or o.startswith('to'):
                 s, rest = o[2:].split('.')
                 m, at = rest.split('@')
@@ -326,6 +326,14 @@ def oracle(events, recs):
                                 f'CancelledError although nobody cancelled it'))
             elif o.startswith('exc'):
                 bad.append(('c15:sender-other-exception', f'step {idx}: {o}'))
+        # while the transport reports its send buffer full nothing further is written: no byte
+        # that begins a new frame is handed over in a call made while it is paused (finishing
+        # the frame that was being handed over when the transport said "full" is not "further")
+        for paused, begins, n in rec['calls']:
+            if paused and begins:
+                bad.append(('c15:write-while-paused',
+                            f'step {idx} {ev}: a write call of {n} bytes that begins a new '
+                            f'message was made while the transport reported its send buffer full'))
         # ---- the byte stream: whole frames of distinct sent messages ...
         for f in rec['frames']:
             if not isinstance(f, int):
@@ -539,17 +547,18 @@ def run(ctx):
     if corp:
         evaluate(ctx, corp, res)
     res['scopes']['corpus'] = len(corp)
-    n = (150000 if ctx.tier == 'thorough' else 30000) if ctx.deep else 3000
-    jobs = [(_kinds(i), random_trace(ctx.rng)) for i in range(n)]
-    evaluate(ctx, jobs, res)
-    res['scopes']['generated'] = n
+    # family 1 goes to length 5 whenever the run is deep (thorough tier, source drift, broken
+    # obligation); the 12-letter family 2 only in the thorough tier (12^5 = 249k traces)
     maxlen = 5 if ctx.deep else 4
+    maxlen2 = 5 if ctx.tier == 'thorough' else 4
     done = 0
     for ln in range(1, maxlen + 1):
         if res.failed and ln > 3:
             break
         jobs = []
-        for alphabet in (ALPHABET_QUICK, ALPHABET_2):
+        for alphabet, mx in ((ALPHABET_QUICK, maxlen), (ALPHABET_2, maxlen2)):
+            if ln > mx:
+                continue
             for i, s in enumerate(itertools.product(alphabet, repeat=ln)):
                 evs = expand(s)
                 if ln <= 3:
@@ -558,9 +567,17 @@ def run(ctx):
                     jobs.append((_kinds(i), evs))
         evaluate(ctx, jobs, res)
         done = ln
+    # seeded structured generator: longer traces, several flags per write, G 0, cancels of
+    # arbitrary ids (mostly-valid + some that refer to nothing)
+    n = (150000 if ctx.tier == 'thorough' else 30000) if ctx.deep else 3000
+    if res.failed:
+        n = min(n, 3000)
+    jobs = [(_kinds(i), random_trace(ctx.rng)) for i in range(n)]
+    evaluate(ctx, jobs, res)
+    res['scopes']['generated'] = n
     res['scopes']['exhaustive'] = {'alphabets': [[a[0] for a in ALPHABET_QUICK],
                                                  [a[0] for a in ALPHABET_2]],
-                                   'max_len': done}
+                                   'max_len': [min(done, maxlen), min(done, maxlen2)]}
     return res.finish(RULE, exhaustive=(done == maxlen))
 
 
